@@ -85,6 +85,7 @@ func HarnessC03Commit() {
 	s := hxNewSrv([]string{"8BITMIME", "ENHANCEDSTATUSCODES"})
 	s.maxDev = svParam("maxdev", 2)
 	s.wideEOD = true // an end-of-data reply of any class: only 2yz acknowledges the message
+	s.eodAny2yz = svParam("eod2yz", 0) == 1
 	if svParam("ml", 0) == 1 {
 		s.multiline = svPick("multiline-replies", 2) == 1
 	}
